@@ -91,10 +91,13 @@ def run(ctx):
     if thorough:
         vlib.tlc_mc(ctx, "RawVector", "MC_RawVector_big.cfg", timeout=3000)
         vlib.tlc_mc(ctx, "RawVectorImpl", "MC_RawVectorImpl.cfg", timeout=3000)
+        vlib.tlc_mc(ctx, "BufferImpl", "MC_BufferImpl.cfg", timeout=3600)
     # vacuity guard: the refinement / return-value invariants CAN fail - with the two repaired defects
     # re-introduced into the transcription TLC must find a counterexample
-    for cfg, inv in (("MC_RawVectorImpl_aliasbug.cfg", "Refines"), ("MC_RawVectorImpl_erasebug.cfg", "ReturnsAgree")):
-        r = vlib.tlc("RawVectorImpl", cfg, workers=4)
+    for mod, cfg, inv in (("RawVectorImpl", "MC_RawVectorImpl_aliasbug.cfg", "Refines"),
+                          ("RawVectorImpl", "MC_RawVectorImpl_erasebug.cfg", "ReturnsAgree"),
+                          ("BufferImpl", "MC_BufferImpl_growbug.cfg", "BRepInv")):
+        r = vlib.tlc(mod, cfg, workers=4)
         if inv not in r.invariant_violated:
             raise vlib.Infra("vacuity guard: %s did not violate %s" % (cfg, inv))
         ctx.extra.setdefault("vacuity_guards", []).append({"cfg": cfg, "violates": inv, "states": r.distinct})
@@ -111,6 +114,11 @@ def run(ctx):
     if len(iscripts) < 1000:
         raise vlib.Infra("impl script emission produced only %d scripts" % len(iscripts))
     scripts += iscripts
+    r = vlib.tlc_mc(ctx, "BufferImpl", "MC_BufferImplScripts.cfg" if thorough else "MC_BufferImplScripts_q.cfg", workers=6, timeout=1800)
+    bscripts = vlib._verdict_lines(r.out).get("SCRIPT", [])
+    if len(bscripts) < 1000:
+        raise vlib.Infra("buffer impl script emission produced only %d scripts" % len(bscripts))
+    scripts += bscripts if thorough else bscripts[ctx.seed % 4::4]
     spath = os.path.join(ctx.workdir, "scripts.ndjson")
     vlib.write_ndjson(spath, scripts)
     binary = build()
